@@ -44,6 +44,7 @@ class Sym:
 
     def __init__(self, path):
         self.path = path
+        self.assumed = []     # input assumptions, re-checked concretely on every replayed counterexample
 
     def int(self, name, lo=None, hi=None):
         v = z3.Int(name)
@@ -67,7 +68,56 @@ class Sym:
         return z3.Bool(name)
 
     def assume(self, c):
+        if not isinstance(c, bool):
+            self.assumed.append(c)
         self.path.assume(c)
+
+
+def subst_pairs(I, Ic, out):
+    """(symbol, value) pairs mapping the symbolic inputs to a concrete valuation of the same shape"""
+    if isinstance(I, dict):
+        for k in I:
+            subst_pairs(I[k], Ic[k], out)
+    elif isinstance(I, (list, tuple)):
+        for a, b in zip(I, Ic):
+            subst_pairs(a, b, out)
+    elif isinstance(I, XR):
+        b = float(Ic)
+        if z3.is_expr(I.nan) and z3.is_const(I.nan):
+            out.append((I.nan, z3.BoolVal(math.isnan(b))))
+        if z3.is_expr(I.pinf) and z3.is_const(I.pinf):
+            out.append((I.pinf, z3.BoolVal(b == math.inf)))
+        if z3.is_expr(I.ninf) and z3.is_const(I.ninf):
+            out.append((I.ninf, z3.BoolVal(b == -math.inf)))
+        if I.den is None and z3.is_const(I.num) and I.num.decl().kind() == z3.Z3_OP_UNINTERPRETED:
+            out.append((I.num, xr.rv(b if math.isfinite(b) else 0.0)))
+    elif z3.is_expr(I) and z3.is_const(I) and I.decl().kind() == z3.Z3_OP_UNINTERPRETED:
+        if I.sort() == z3.IntSort():
+            out.append((I, z3.IntVal(int(Ic))))
+        elif I.sort() == z3.RealSort():
+            out.append((I, xr.rv(float(Ic))))
+        elif I.sort() == z3.BoolSort():
+            out.append((I, z3.BoolVal(bool(Ic))))
+    return out
+
+
+def precondition_holds(assumed, I, Ic):
+    """do the concrete inputs actually passed to the real build satisfy every harness assumption?"""
+    pairs = subst_pairs(I, Ic, [])
+    if not pairs:
+        return True
+    for c in assumed:
+        r = z3.simplify(z3.substitute(c, *pairs))
+        if z3.is_false(r):
+            return False
+        if not z3.is_true(r):
+            # derived inputs (expressions over other symbols) are not substituted: undecided counts as not holding
+            s = z3.Solver()
+            s.set('timeout', 2000)
+            s.add(z3.Not(r))
+            if str(s.check()) != 'unsat':
+                return False
+    return True
 
 
 def concretize(v, model):
@@ -101,6 +151,19 @@ def real_leaves(v, out):
     elif isinstance(v, XR):
         if v.den is None and z3.is_const(v.num) and v.num.decl().kind() == z3.Z3_OP_UNINTERPRETED:
             out.append(v.num)
+    return out
+
+
+def plain_reals(v, out):
+    """Real-sorted z3 terms used as stand-ins for integers (integer models are preferred for replay)"""
+    if isinstance(v, dict):
+        for x in v.values():
+            plain_reals(x, out)
+    elif isinstance(v, (list, tuple)):
+        for x in v:
+            plain_reals(x, out)
+    elif z3.is_expr(v) and v.sort() == z3.RealSort():
+        out.append(v)
     return out
 
 
@@ -214,6 +277,10 @@ class Family:
         """the same call(s) on the natively compiled, sanitised kernels; returns (status dict, O, call text)"""
         return native_call(ctx, self, inst, Ic)
 
+    def fixup(self, inst, Ic):
+        """adjust a concretised model to what is really passed to the kernel (e.g. round real-valued stand-ins to integers)"""
+        return Ic
+
     def viol_filter(self, inst, I, viol):
         """memory families: return False to drop an obligation the wrapper contract rules out"""
         return True
@@ -259,11 +326,22 @@ def load_known(prop):
 
 # ---------------------------------------------------------------------------------- symbolic call
 
+def _intify(ty, v):
+    """concrete value for an integer-typed slot (real-valued stand-ins are concretised to floats)"""
+    if ty in ('i32', 'i64') and isinstance(v, float):
+        return int(round(v))
+    return v
+
+
 def make_call(fam, inst, I, symbolic=True):
     args = fam.args(inst, I)
     objs = {}
     vals = []
     for a in args:
+        if isinstance(a, Scalar):
+            a.value = _intify(a.ty, a.value)
+        else:
+            a.values = [_intify(a.ty, v) for v in a.values]
         if isinstance(a, Scalar):
             vals.append(a.value)
         else:
@@ -278,8 +356,9 @@ def native_call(ctx, fam, inst, Ic):
     desc = []
     for a in args:
         if isinstance(a, Scalar):
-            desc.append(('s', a.ty, a.value))
+            desc.append(('s', a.ty, _intify(a.ty, a.value)))
         else:
+            a.values = [_intify(a.ty, v) for v in a.values]
             desc.append(('b', a.ty, a.values))
     text = native.call_text(fam.kernel, desc)
     res = native.run_driver(ctx.driver(fam.pkg), text)
@@ -347,6 +426,7 @@ def explore_instance(ctx, fam, inst, tier, seed, known_active):
             xr.Eps.reset(fam.eps)
             S = Sym(path)
             I = fam.inputs(inst, S)
+            path.assumed = S.assumed
             O = None
             try:
                 O = fam.execute(ex, path, inst, I, srcfile)
@@ -360,6 +440,8 @@ def explore_instance(ctx, fam, inst, tier, seed, known_active):
                     stack.append((path.dec[:i] + [not path.dec[i]], None if path.alt[i] == 'unknown' else path.alt[i]))
             res['paths'] += 1
             if bound:
+                if fam.memory and path.viols:
+                    check_path(ctx, ex, fam, inst, path, I, None, res, known_active, confirmed_known, tier, deadline=t0 + budget * 1.15)
                 continue
             res['uninit_reads'] += len(path.uninit)
             check_path(ctx, ex, fam, inst, path, I, O, res, known_active, confirmed_known, tier)
@@ -384,10 +466,11 @@ def model_for(ex, path, extra, timeout_ms=None):
 def nicer_model(ex, path, extra, I, m):
     """try to find a model whose real inputs are dyadic rationals (exactly representable doubles)"""
     leaves = real_leaves(I, [])
-    if not leaves:
+    plain = plain_reals(I, [])
+    if not leaves and not plain:
         return m
     for k in (2, 10):
-        cs = [z3.IsInt(v * (2 ** k)) for v in leaves]
+        cs = [z3.IsInt(v * (2 ** k)) for v in leaves] + [z3.IsInt(v) for v in plain]
         r, m2 = ex.solver_check(path.pc + list(extra) + cs, timeout_ms=3000)
         if r == 'sat':
             return m2
@@ -522,7 +605,17 @@ def check_path(ctx, ex, fam, inst, path, I, O, res, known_active, confirmed_know
                 res['inconclusive'].append({'reason': 'solver-unknown', 'label': label})
                 break
             m = nicer_model(ex, path, [] if c is True else [c], I_full, m)
-            Ic = concretize(I_full, m)
+            Ic = fam.fixup(inst, concretize(I_full, m))
+            if not precondition_holds(getattr(path, 'assumed', []), I_full, Ic):
+                # rounding the model to doubles / integers left the harness precondition: not a counterexample
+                tries += 1
+                if tries >= (3 if tier == 'quick' else 6):
+                    res['nonrepro'] += 1
+                    res['inconclusive'].append({'reason': 'non-reproducing', 'label': label, 'detail': 'model leaves the precondition when rounded',
+                                                'inputs': jsonable(Ic)})
+                    break
+                extra_block.append(block_model(I_full, m))
+                continue
             nres, On, text = fam.native(ctx, inst, Ic)
             if fam.memory:
                 confirmed = nres['status'] in ('sanitizer', 'signal')
@@ -579,7 +672,7 @@ def validate_path(ctx, ex, fam, inst, path, I, res, srcfile):
         if r != 'sat':
             res['validation_skipped'] += 1
             return
-    Ic = concretize(I, m)
+    Ic = fam.fixup(inst, concretize(I, m))
     p2 = Path()
     xr.Eps.reset(False)
     ex.exact_consts = False
